@@ -50,6 +50,10 @@ type Node struct {
 	mu    sync.Mutex
 	feeds []*FeedPipe
 
+	// OnDeliver, when set, is called on the feed worker's goroutine just before an event is
+	// handed to the node's real feed callback.
+	OnDeliver func(feedID string, ev sgbucket.FeedEvent)
+
 	// knobs
 	NumVB       int // simulated vbuckets for feed ordering (power of two)
 	FeedWorkers int
@@ -725,6 +729,12 @@ func (ds *DataStore) WriteUpdateWithXattrs(ctx context.Context, key string, xatt
 	if opts == nil {
 		opts = &sgbucket.MutateInOptions{}
 	}
+	// rosmar keeps a "tombstone" flag per row that its own loop reads but the public read API
+	// does not return; this mirror infers it from a nil body.  The two differ for a tombstone that
+	// was created directly (never had a body): rosmar does not flag it, so a resurrection insert is
+	// refused with ErrKeyExists although nothing changed.  When that happens for an unchanged CAS the
+	// document is treated as live (CAS-guarded write), which is what rosmar's own loop does.
+	var resurrectRefusedCas uint64
 	for {
 		if previous == nil {
 			body, xattrs, cas, gerr := ds.GetWithXattrs(ctx, key, xattrKeys)
@@ -740,6 +750,9 @@ func (ds *DataStore) WriteUpdateWithXattrs(ctx context.Context, key string, xatt
 				}
 			} else {
 				prev = sgbucket.BucketDocument{Body: body, Xattrs: xattrs, Cas: cas, IsTombstone: body == nil}
+			}
+			if prev.IsTombstone && resurrectRefusedCas != 0 && prev.Cas == resurrectRefusedCas {
+				prev.IsTombstone = false
 			}
 			previous = &prev
 		}
@@ -766,6 +779,9 @@ func (ds *DataStore) WriteUpdateWithXattrs(ctx context.Context, key string, xatt
 				return 0, sgbucket.ErrDeleteXattrOnTombstone
 			}
 			casOut, err = ds.WriteResurrectionWithXattrs(ctx, key, wexp, updatedDoc.Doc, updatedDoc.Xattrs, opts)
+			if errors.Is(err, sgbucket.ErrKeyExists) {
+				resurrectRefusedCas = previous.Cas
+			}
 		} else {
 			casOut, err = ds.WriteWithXattrs(ctx, key, wexp, previous.Cas, updatedDoc.Doc, updatedDoc.Xattrs, updatedDoc.XattrsToDelete, opts)
 		}
@@ -892,6 +908,9 @@ func (f *FeedPipe) runWorker(t *verifsim.Task, worker, workers int) {
 			}
 			f.mu.Unlock()
 			f.Delivered.Add(1)
+			if f.node.OnDeliver != nil {
+				f.node.OnDeliver(f.id, ev)
+			}
 			f.cb(ev)
 		}
 	}
